@@ -71,7 +71,12 @@ let () =
           | EnvModel.OutOfFuel -> "out=HANG"
           | EnvModel.BadRead -> "out=BADREAD" in
         let s =
-          if List.mem false oracle then "*"   (* C16 says nothing under allocation failure (that is C07) *)
+          if List.mem false oracle then
+            (* under allocation failure C16 leaves open WHETHER a string is returned (that is C07), but a string
+               that is returned is "the input with each reference replaced": NULL or the expansion, nothing else *)
+            (match EnvSpec.spec_expand env input with
+             | Some d -> "out=NULL|s:" ^ enc (il d)
+             | None -> "*")
           else match EnvSpec.spec_expand env input with
             | Some d -> "out=s:" ^ enc (il d)
             | None -> "*" in
